@@ -598,9 +598,28 @@ def run(rec, F, S):
                     rec.finding(R, "F11.P5/eliminate_drop/%s" % v0, "store/reload elimination for %s..%s is not guarded by equality of the two slots (or the ops are not a Set/Get pair of one variable kind)" % (v0, v2), loc=loc)
     rec.floor(R, "arms analysed", analysed, 14)
     rec.floor(R, "rewrite functions exercised", len(rewrites_seen), 6)
-    # P6
-    dr = fns.get("drop")
-    if dr is not None:
-        for n in walk_expr(dr["body"]):
-            if n.get("s") == "let" and n["pat"].get("p") == "typed" and n["pat"]["ty"] == "u8":
-                rec.unan(R, "drop::%s: u8" % n["pat"]["pat"].get("name"), "P6: counter narrower than its loop bound; a run of more than 255 Drops would wrap (runs are bounded by 255 locals + 1 per scope exit)")
+    # P6: a run counter that becomes an instruction operand is bounded by the operand's width
+    n6 = 0
+    for fname, f in sorted(fns.items()):
+        narrow = {}
+        for n in walk_expr(f.get("body") or {}):
+            if isinstance(n, dict) and n.get("s") == "let" and n["pat"].get("p") == "typed" and n["pat"]["ty"] in ("u8", "u16", "i8", "i16") and n["pat"]["pat"].get("p") == "ident":
+                narrow[n["pat"]["pat"]["name"]] = n["pat"]["ty"]
+        if not narrow:
+            continue
+        for n in walk_expr(f.get("body") or {}):
+            if not (isinstance(n, dict) and n.get("e") == "while"):
+                continue
+            cond_names = set(y.get("p") for y in walk_expr(n.get("cond")) if isinstance(y, dict) and y.get("e") == "path")
+            for c, ty in narrow.items():
+                incs = [y for y in walk_expr(n.get("body")) if isinstance(y, dict) and y.get("e") == "binary" and y.get("op") in ("+=", "*=") and synq.src(y.get("a")).strip() == c]
+                incs += [y for y in walk_expr(n.get("body")) if isinstance(y, dict) and y.get("e") == "assign" and synq.src(y.get("a")).strip() == c and y["b"].get("e") == "binary" and y["b"].get("op") in ("+", "*")]
+                if not incs:
+                    continue
+                n6 += 1
+                safe = [y for y in walk_expr(n.get("body")) if isinstance(y, dict) and y.get("e") == "mcall" and y.get("m") in ("checked_add", "saturating_add") and synq.src(y.get("recv")).strip() == c]
+                ok6 = c in cond_names or (bool(safe) and not [y for y in incs if y.get("op") == "+="])
+                rec.inst(R, "P6:%s::%s (%s) bounded in its loop" % (fname, c, ty), ok=ok6, loc="%s:%d" % (PEEPHOLE, n["line"]))
+                if not ok6:
+                    rec.finding(R, "F11.P6/%s/%s" % (fname, c), "peephole rewrite %s counts a run of instructions in `%s: %s` and the loop is bounded only by the input: a run longer than the type holds (e.g. more than 255 consecutive Drops at the end of a block with too many locals) overflows - a panic in debug builds, a wrong operand otherwise - before the 'too many locals' diagnostic is reported" % (fname, c, ty), loc="%s:%d" % (PEEPHOLE, n["line"]))
+    rec.floor(R, "narrow run counters", n6, 1)
